@@ -22,7 +22,7 @@ import (
 type c10Ref struct{ ci, oi int }
 
 // runs the steps refs[lo:hi] in child processes, one after the other
-func c10RunChunk(t *testing.T, env verifEnv, cases []*c10Case, refs []c10Ref, lo, hi int, tag string, deaths *int, mu *sync.Mutex) {
+func c10RunChunk(t *testing.T, env verifEnv, cases []*c10Case, refs []c10Ref, lo, hi int, tag string, deaths, blocked *int, mu *sync.Mutex) {
 	child := 0
 	for start := lo; start < hi; {
 		child++
@@ -42,7 +42,7 @@ func c10RunChunk(t *testing.T, env verifEnv, cases []*c10Case, refs []c10Ref, lo
 		cmd.Stderr = &out
 		runErr := cmd.Run()
 		os.WriteFile(base+".out", out.Bytes(), 0o644)
-		last, lastPh, ended := -1, "", false
+		last, lastPh, ended, blockedAt := -1, "", false, -1
 		if lf, err := os.Open(base + ".log"); err == nil {
 			sc := bufio.NewScanner(lf)
 			sc.Buffer(make([]byte, 1<<20), 1<<28)
@@ -60,6 +60,8 @@ func c10RunChunk(t *testing.T, env verifEnv, cases []*c10Case, refs []c10Ref, lo
 					doc, raw, class := o.Doc, o.Raw, o.Class
 					*o = *l.Obs
 					o.Doc, o.Raw, o.Class = doc, raw, class
+				case "blocked":
+					blockedAt = l.K
 				case "end":
 					ended = true
 				}
@@ -69,6 +71,15 @@ func c10RunChunk(t *testing.T, env verifEnv, cases []*c10Case, refs []c10Ref, lo
 		os.Remove(base + ".batch.json")
 		if ended {
 			return
+		}
+		if blockedAt >= 0 && lastPh == "done" && last == blockedAt {
+			// the liveness probe after step blockedAt failed (recorded in that step's observation);
+			// the hub of that child was useless from then on: the rest of the list in a new child
+			mu.Lock()
+			*blocked++
+			mu.Unlock()
+			start = blockedAt + 1
+			continue
 		}
 		txt := out.String()
 		if last < 0 || lastPh != "start" || !(strings.Contains(txt, "panic:") || strings.Contains(txt, "fatal error:")) {
@@ -80,7 +91,7 @@ func c10RunChunk(t *testing.T, env verifEnv, cases []*c10Case, refs []c10Ref, lo
 		}
 		// the process exited while the frame of step `last` was being processed
 		o := &cases[refs[last].ci].Ops[refs[last].oi]
-		o.Done, o.Alive, o.Replies, o.By, o.ByOk, o.DSame, o.Closed, o.Api, o.Off = true, false, []string{}, []string{}, false, false, false, 0, 0
+		o.Done, o.Alive, o.Replies, o.By, o.ByOk, o.DSame, o.Closed, o.Api, o.Off, o.Live = true, false, []string{}, []string{}, false, false, false, 0, 0, false
 		if i := strings.Index(txt, "panic:"); i >= 0 {
 			p := txt[i:]
 			if len(p) > 1200 {
@@ -94,6 +105,8 @@ func c10RunChunk(t *testing.T, env verifEnv, cases []*c10Case, refs []c10Ref, lo
 		start = last + 1
 	}
 }
+
+var c10Blocked int // children that ended because their hub no longer served anybody (all calls of c10RunAll)
 
 func c10RunAll(t *testing.T, env verifEnv, cases []*c10Case, parallel int) (deaths int) {
 	var refs []c10Ref
@@ -124,7 +137,7 @@ func c10RunAll(t *testing.T, env verifEnv, cases []*c10Case, parallel int) (deat
 		wg.Add(1)
 		go func(i int) {
 			defer wg.Done()
-			c10RunChunk(t, env, cases, refs, bounds[i], bounds[i+1], fmt.Sprintf("%02d", i), &deaths, &mu)
+			c10RunChunk(t, env, cases, refs, bounds[i], bounds[i+1], fmt.Sprintf("%02d", i), &deaths, &c10Blocked, &mu)
 		}(i)
 	}
 	wg.Wait()
@@ -178,8 +191,8 @@ func TestVerifC10(t *testing.T) {
 		}
 	} else {
 		perCase := 12
-		var cur [6]*c10Case
-		var curOpaque [6]*c10Case
+		var cur [9]*c10Case
+		var curOpaque [9]*c10Case
 		add := func(st int, s c10Step, opaque bool) {
 			slot := &cur[st]
 			mode := 0
@@ -217,6 +230,11 @@ func TestVerifC10(t *testing.T) {
 					add(st, c10Step{K: "doc", Doc: it.doc, Class: it.class}, false)
 					hist["shape_steps"]++
 				}
+			}
+			// the state without the control permission: the valid messages and what names it as home
+			if home[8] || (strings.HasPrefix(it.class, "valid/") && !strings.HasPrefix(it.class, "valid/hello")) {
+				add(8, c10Step{K: "doc", Doc: it.doc, Class: it.class}, false)
+				hist["shape_steps"]++
 			}
 		}
 		for _, it := range c10RawItems(newVrng(env.seed, 78), env.thorough()) {
@@ -335,6 +353,9 @@ func TestVerifC10(t *testing.T) {
 			if o.Off != 0 {
 				sink.count("obs/stored-for-session-without-connection")
 			}
+			if o.Alive && !o.Live {
+				sink.count("obs/hub-blocked")
+			}
 			if o.Api != 0 {
 				sink.count(fmt.Sprintf("obs/dialout-request-ended-%d", o.Api))
 			}
@@ -356,6 +377,7 @@ func TestVerifC10(t *testing.T) {
 		sink.stats.Histogram["gen/"+k] = v
 	}
 	sink.stats.Histogram["child_deaths"] = deaths
+	sink.stats.Histogram["child_hubs_blocked"] = c10Blocked
 	sink.stats.Histogram["tree_has_fix_01_dialout"], sink.stats.Histogram["tree_has_fix_02_label"] = 0, 0
 	if fixDialout {
 		sink.stats.Histogram["tree_has_fix_01_dialout"] = 1
@@ -364,6 +386,6 @@ func TestVerifC10(t *testing.T) {
 		sink.stats.Histogram["tree_has_fix_02_label"] = 1
 	}
 	sink.stats.Notes = append(sink.stats.Notes, "one case = up to 12 independent steps (state, frame, observation); evaluations counts cases, the histogram counts steps",
-		"states: 0 no hello yet, 1 authenticated client, 2 client in the bystander's room, 3 internal client in that room, 4 internal client with a pending dialout, 5 client in the room on a resumed session; in every hub the room has a bystander (connected) and a member whose connection was interrupted (messages to it are stored for the resume)")
+		"states: 0 no hello yet, 1 authenticated client, 2 client in the bystander's room, 3 internal client in that room, 4 internal client with a pending dialout, 5 client in the room on a resumed session, 8 client in the room whose permissions do not include control; in every hub the room has a bystander (connected) and a member whose connection was interrupted (messages to it are stored for the resume)")
 	sink.close("frames sent by real websocket clients to a real Hub in child processes, per session state: shape enumeration over the schema of ClientMessage read by reflection (document / member / sub-member positions x absent, null, wrong kinds, boundary values), repeated names, nesting limit, media payloads, hello parameters, URLs, the pending dialout id on every internal message, chat / arbitrary payloads to a session without connection (by session id, room, user, call); raw frames (truncations, junk, invalid UTF-8, size limit and limit+1, binary, empty); a seeded mutation stream; non-trivial = beyond the valid messages and whole-document shapes, or with a state change; distinct = distinct (state, class, observation) sequences")
 }
